@@ -108,43 +108,154 @@ def runOld (g : Geom) : St K → List (Op K) → St K × List (Obs K)
     let rs := runOld g r.1 ops
     (rs.1, r.2 :: rs.2)
 
-/-! ### the noisy detector -/
+/-! ### reference-level model: arrays live in a heap, the caller holds handles (aliasing)
 
-/-- Noise configuration of a `NoisyDetector` with photon noise switched off: dark-current rate,
-flat-field map (one factor per pixel), read-noise rms, and the standard-normal draws the
-`k`-th read-out would use (`np.random.normal(0, σ) = σ·z`). -/
-structure Noise (K : Type) where
-  dark : K
-  flat : List K
-  sigma : K
-  draws : Nat → List K
+`run` above treats images as values, so "a later integration cannot change an image already returned" and
+"the detector never writes into the array it was given" are true of it by construction.  Here arrays are
+cells of a heap, addressed by index; the caller creates power buffers (`alloc`), may overwrite in place any
+array it holds a handle on (`write`: a buffer it passed in, an image it got back), and the detector
+* `integrate buf dt w`: reads the buffer, allocates `acc + bin(power)·dt·w` as a **new** array and rebinds
+  its accumulator to it (`self.accumulated_charge = self.accumulated_charge + …`, never `+=`);
+* `readOut`: allocates a copy of the accumulator (`.copy()`, or `np.zeros` when nothing was integrated),
+  hands that out and rebinds the accumulator to the scalar 0.
+`known` lists the references handed to the caller, in order (its position in the list is the handle the
+driver protocol uses).  `rStepBad` is a detector that accumulates in place into the caller's buffer and
+returns the accumulator itself — the aliasing the value model cannot express. -/
 
-structure NSt (K : Type) where
-  acc : Option (List K) := none
-  nread : Nat := 0
+structure RSt (K : Type) where
+  heap : List (List K) := []
+  acc : Option Nat := none
+  known : List Nat := []
 
-def nIntegrate (g : Geom) (nz : Noise K) (st : NSt K) (p : List K) (dt w : K) : NSt K × Obs K :=
-  if p.length = g.ninput then
-    let a1 := accAdd st.acc (charge (binND g.s g.dims p) dt w)
-    ({ st with acc := some (a1.map (· + nz.dark * dt * w)) }, .done)
-  else (st, .refused)
+inductive ROp (K : Type) where
+  | alloc (v : List K)
+  | write (r : Nat) (v : List K)
+  | integrate (buf : Nat) (dt w : K)
+  | readOut
 
-def nReadOut (g : Geom) (nz : Noise K) (st : NSt K) : NSt K × Obs K :=
-  let out := st.acc.getD (vzero g.npix)
-  let out := List.zipWith (· * ·) out nz.flat
-  let out := List.zipWith (fun o z => o + nz.sigma * z) out (nz.draws st.nread)
-  ({ acc := none, nread := st.nread + 1 }, .image out)
+inductive RObs where
+  | ref (r : Nat)     -- `alloc` / `read_out` handed out the reference `r`
+  | done
+  | refused           -- integrate raised (wrong size) / write to a reference the caller does not hold
+deriving DecidableEq
 
-def nStep (g : Geom) (nz : Noise K) (st : NSt K) : Op K → NSt K × Obs K
-  | .integrate p dt w => nIntegrate g nz st p dt w
-  | .readOut => nReadOut g nz st
+/-- the array a reference points to (`[]` for a dangling one) -/
+def RSt.at (st : RSt K) (r : Nat) : List K := st.heap.getD r []
 
-def nRun (g : Geom) (nz : Noise K) : NSt K → List (Op K) → NSt K × List (Obs K)
+/-- the accumulator as a value -/
+def RSt.accVal (st : RSt K) : Option (List K) := st.acc.map st.at
+
+def rStep (g : Geom) (st : RSt K) : ROp K → RSt K × RObs
+  | .alloc v => ({ st with heap := st.heap ++ [v], known := st.known ++ [st.heap.length] }, .ref st.heap.length)
+  | .write r v =>
+    if st.known.contains r then ({ st with heap := st.heap.set r v }, .done) else (st, .refused)
+  | .integrate buf dt w =>
+    let p := st.at buf
+    if p.length = g.ninput then
+      ({ st with heap := st.heap ++ [accAdd st.accVal (charge (binND g.s g.dims p) dt w)],
+                 acc := some st.heap.length }, .done)
+    else (st, .refused)
+  | .readOut =>
+    ({ heap := st.heap ++ [st.accVal.getD (vzero g.npix)], acc := none,
+       known := st.known ++ [st.heap.length] }, .ref st.heap.length)
+
+def rRun (g : Geom) : RSt K → List (ROp K) → RSt K × List RObs
   | st, [] => (st, [])
   | st, op :: ops =>
-    let r := nStep g nz st op
-    let rs := nRun g nz r.1 ops
+    let r := rStep g st op
+    let rs := rRun g r.1 ops
     (rs.1, r.2 :: rs.2)
+
+/-- the images the read-outs of a history return, each as it is *when it is returned* -/
+def rImages (g : Geom) : RSt K → List (ROp K) → List (List K)
+  | _, [] => []
+  | st, .readOut :: ops => (rStep g st .readOut).1.at st.heap.length :: rImages g (rStep g st .readOut).1 ops
+  | st, op :: ops => rImages g (rStep g st op).1 ops
+
+/-- the history the value model sees: every integration with the content its buffer has *at the call* -/
+def valueOps (g : Geom) : RSt K → List (ROp K) → List (Op K)
+  | _, [] => []
+  | st, .readOut :: ops => .readOut :: valueOps g (rStep g st .readOut).1 ops
+  | st, .integrate buf dt w :: ops => .integrate (st.at buf) dt w :: valueOps g (rStep g st (.integrate buf dt w)).1 ops
+  | st, op :: ops => valueOps g (rStep g st op).1 ops
+
+/-- Bad: the first integration scales the caller's buffer in place and keeps it as accumulator, later ones
+add in place, the read-out returns the accumulator itself -/
+def rStepBad (g : Geom) (st : RSt K) : ROp K → RSt K × RObs
+  | .integrate buf dt w =>
+    let p := st.at buf
+    if p.length = g.ninput then
+      let c := charge (binND g.s g.dims p) dt w
+      match st.acc with
+      | none => ({ st with heap := st.heap.set buf c, acc := some buf }, .done)
+      | some a => ({ st with heap := st.heap.set a (vadd (st.at a) c) }, .done)
+    else (st, .refused)
+  | .readOut =>
+    match st.acc with
+    | none => rStep g st .readOut
+    | some a => ({ st with acc := none, known := st.known ++ [a] }, .ref a)
+  | op => rStep g st op
+
+def rRunBad (g : Geom) : RSt K → List (ROp K) → RSt K × List RObs
+  | st, [] => (st, [])
+  | st, op :: ops =>
+    let r := rStepBad g st op
+    let rs := rRunBad g r.1 ops
+    (rs.1, r.2 :: rs.2)
+
+/-! ### which grid the image is labelled with
+
+hcipy Fields carry a grid; `a + b` of two Fields keeps the grid of the left operand, `0 + b` that of `b`.
+`integrate` relabels the (binned) power with the detector grid before accumulating — `subsample_field(…,
+new_grid=self.detector_grid)` when binning, `Field(power, self.detector_grid)` otherwise (D170) — and an
+empty read-out builds its zero image on the detector grid.  `tStepOld` is the unrepaired subsampling-1 path of
+`NoiselessDetector`, which accumulated the power with whatever grid it came with (plain arrays are wrapped on
+the input grid first). -/
+
+inductive GTag where
+  | detector | input | foreign
+deriving DecidableEq, Repr
+
+/-- what the caller hands to `integrate`: a Field on the input grid, a Field on some other grid, a plain array -/
+inductive PTag where
+  | onInput | onForeign | plain
+deriving DecidableEq, Repr
+
+/-- grid of `acc + img` -/
+def tagAdd : Option GTag → GTag → GTag
+  | none, t => t
+  | some a, _ => a
+
+structure TSt where
+  acc : Option GTag := none
+
+inductive TOp where
+  | integrate (p : PTag)
+  | readOut
+
+/-- the grid the power carries when it reaches the accumulation, repaired code -/
+def relabel (_ : PTag) : GTag := .detector
+
+/-- … and on the unrepaired subsampling-1 path -/
+def relabelOld : PTag → GTag
+  | .onInput => .input
+  | .onForeign => .foreign
+  | .plain => .input
+
+def tStepWith (lab : PTag → GTag) (st : TSt) : TOp → TSt × Option GTag
+  | .integrate p => ({ acc := some (tagAdd st.acc (lab p)) }, none)
+  | .readOut => ({ acc := none }, some (st.acc.getD .detector))
+
+def tStep : TSt → TOp → TSt × Option GTag := tStepWith relabel
+def tStepOld : TSt → TOp → TSt × Option GTag := tStepWith relabelOld
+
+/-- the grid tags of the images a history returns -/
+def tRunWith (lab : PTag → GTag) : TSt → List TOp → List GTag
+  | _, [] => []
+  | st, op :: ops =>
+    match (tStepWith lab st op).2 with
+    | some t => t :: tRunWith lab (tStepWith lab st op).1 ops
+    | none => tRunWith lab (tStepWith lab st op).1 ops
 
 /-! ### the noisy detector with its parameters as mutable state (setters between operations)
 
@@ -204,6 +315,38 @@ def pReads (g : Geom) : PSt K → List (POp K) → List (Bool × Obs K)
   | _, [] => []
   | st, .readOut :: ops => (st.off g, (pStep g st .readOut).2) :: pReads g (pStep g st .readOut).1 ops
   | st, op :: ops => pReads g (pStep g st op).1 ops
+
+/-- run a history of the noisy detector (with setters), collecting the observations; this is the
+fold of `pStep` the driver executes line by line -/
+def pRun (g : Geom) : PSt K → List (POp K) → PSt K × List (Obs K)
+  | st, [] => (st, [])
+  | st, op :: ops =>
+    let r := pStep g st op
+    let rs := pRun g r.1 ops
+    (rs.1, r.2 :: rs.2)
+
+/-- an `integrate` / `read_out` call as an operation of the noisy detector -/
+def lift : Op K → POp K
+  | .integrate p dt w => .integrate p dt w
+  | .readOut => .readOut
+
+/-- the state of `NoisyDetector(grid, dark_current_rate=dark, read_noise=0, flat_field=<map>,
+include_photon_noise=False)` right after construction (scalars broadcast to one value per pixel) -/
+def pInit (g : Geom) (dark : K) (flat : List K) : PSt K :=
+  { flat := flat, dark := List.replicate g.npix dark, sigma := vzero g.npix }
+
+/-- the freshly constructed noisy detector with every noise source off -/
+def allOff (g : Geom) : PSt K := pInit g 0 (List.replicate g.npix 1)
+
+/-- an operation that does not switch any noise source on: integrations, read-outs, and
+assignments of the "off" value of a parameter (unit flat field, zero dark current, zero read noise,
+no photon noise) -/
+def OffOp (g : Geom) : POp K → Bool
+  | .setFlat m => decide (m = List.replicate g.npix 1)
+  | .setDark d => decide (d = vzero g.npix)
+  | .setSigma s => decide (s = vzero g.npix)
+  | .setPhoton b => !b
+  | _ => true
 
 /-- forget the setters: the history a noiseless detector would see -/
 def strip : List (POp K) → List (Op K)
